@@ -757,10 +757,10 @@ pub fn run(ctx: &Ctx, _args: &Args) -> i32 {
     let started = Instant::now();
     let jobs = ctx.jobs;
     let cat = catalogue();
-    let n_sets: usize = ctx.tier.pick(32, 120);
+    let n_sets: usize = ctx.tier.pick(32, 48);
     let set_size_max: usize = ctx.tier.pick(4, 5);
-    let n_histories: u64 = ctx.tier.pick(2_400, 60_000);
-    let n_big_sets: usize = ctx.tier.pick(0, 4); // k = 6 (720 orders x 64 subsets), thorough only
+    let n_histories: u64 = ctx.tier.pick(2_400, 30_000);
+    let n_big_sets: usize = ctx.tier.pick(0, 1); // k = 6 (720 orders x 64 subsets), thorough only
 
     let mut report = run_sharded(jobs, |shard, report| {
         let mut rng = Rng::stream(ctx.seed, 1000 + shard as u64);
